@@ -1,7 +1,7 @@
 (* C14 -- the fast Verilog reader agrees with the full reader on its documented subset.  Statements only; proofs in
    Proofs/FastVerilogProofs.v.  Models: Model/FastVerilog.v (fast_sem, full_sem, untie, in_subset). *)
 From stdpp Require Import strings gmap sets.
-From CG Require Import Model.FastVerilog Proofs.FastVerilogProofs Proofs.FvA6 Proofs.FvA10 Base.Sem Gen.Gen_fastv.
+From CG Require Import Model.FastVerilog Proofs.FastVerilogProofs Proofs.FvA6 Proofs.FvA10 Proofs.FvD6 Base.Sem Gen.Gen_fastv.
 Open Scope string_scope.
 
 (* obligation on the regenerated tables: patterns of the fast reader as captured from a live call (keywords anchored with \b,
@@ -12,7 +12,8 @@ Print Assumptions C14_tables_ok.
 
 (* THE FULL STATEMENT (DESIGN.md appendix C): for every AST of the documented subset both readers succeed and return the same
    circuit apart from the names of the constant nodes (untie_eq_registry: that equality includes name and registry).
-   NOT PROVED for all ASTs: it is decided per generated AST / rendered text by Run_C14.agree + Run_C14.holds (see
+   PROVED for every AST without blackbox instances (C14_fast_full_agree_prims, C14_fast_full_agree_assigns below); for ASTs with
+   blackbox instances it is decided per generated AST / rendered text by Run_C14.agree + Run_C14.holds (see
    C14_case_decides_instance_partial); proved for all inputs are: success of the fast reader on the whole subset, equality of name and registry whenever both
    succeed, the ingredients the repairs rest on (fresh tie names, parity cancellation), and that equality up to the constant
    names implies the functional clause. *)
@@ -32,6 +33,25 @@ Print Assumptions C14_untie_eq_registry.
 Theorem C14_fast_sem_succeeds_partial : ∀ a bbs, in_subset a bbs = true → ∃ C, fast_sem a bbs = Ok C.
 Proof. exact fast_sem_succeeds. Qed.
 Print Assumptions C14_fast_sem_succeeds_partial.
+
+(* AGREEMENT, stage "primitive instances" and stage "assigns": for every AST of the documented subset without blackbox instances
+   (all 8 primitives at any arity, constants as operands and assign sources, equal operands, any statement order incl. use before
+   definition and combinational loops, inputs that are outputs) both readers succeed and return the same circuit apart from the
+   names of the constant nodes.  Proof (Proofs/FvA1..FvD6): both graphs are computed as lookup functions of one state machine
+   over the statements (full reader: fold invariant over add_g; fast reader: batch construction), shown equal to one function
+   finT of the tie names; untie maps finT to its instance at the canonical names (symbolic operands, cancellation commutes with
+   the injective naming). *)
+Definition only_prims (a : ast) : bool :=
+  forallb (λ it, match it with IInst _ _ _ | IAssign _ _ => false | _ => true end) (a_items a).
+Theorem C14_fast_full_agree_assigns : ∀ a bbs, in_subset a bbs = true → no_inst a = true → agreement a bbs.
+Proof. exact agree_gates. Qed.
+Print Assumptions C14_fast_full_agree_assigns.
+Theorem C14_fast_full_agree_prims : ∀ a bbs, in_subset a bbs = true → only_prims a = true → agreement a bbs.
+Proof.
+  intros a bbs H1 H2. apply agree_gates; [done|]. unfold no_inst, only_prims in *. rewrite forallb_forall in *.
+  intros it Hit. specialize (H2 it Hit). by destruct it.
+Qed.
+Print Assumptions C14_fast_full_agree_prims.
 
 (* second half of "both succeed" for every AST of the subset WITHOUT blackbox instances (primitive instances and assigns, any
    statement order, use before definition): the full reader raises nothing.  Proof: invariant of its fold over add_g
@@ -119,5 +139,16 @@ Example C14_tie_shape_inhabited :
   | Ok Cf, Ok Cl => tie_shapeb (c_g Cf) && tie_shapeb (c_g Cl) && bool_decide (untie_g (c_g Cf) = untie_g (c_g Cl))
   | _, _ => false end = true.
 Proof. vm_compute. reflexivity. Qed.
+Definition ex_gates : ast :=
+  {| a_name := "top"; a_ports := ["a"; "xinput"; "o"; "tie0"; "p"];
+     a_items := [ IOutput ["o"; "tie0"; "p"];
+                  IGate Xor "g2" [ONet "o"; ONet "tie_0"; ONet "_w"; OConst "1'b1"; ONet "_w"; OConst "1'b1"; ONet "xinput"];
+                  IInput ["a"; "xinput"]; IWire ["_w"; "tie_0"];
+                  IGate Nand "g1" [ONet "tie_0"; ONet "a"; OConst "1'b1"; ONet "xinput"];
+                  IAssign "_w" (ONet "o");
+                  IGate Xnor "g3" [ONet "p"; ONet "a"; ONet "a"];
+                  IAssign "tie0" (OConst "1'b0") ] |}.
+Example C14_agree_guard_inhabited : in_subset ex_gates [] = true ∧ no_inst ex_gates = true.
+Proof. split; vm_compute; reflexivity. Qed.
 Example C14_parity_nonvacuous : is_parity Xnor = true ∧ cancel_pairs ["a"; "b"; "a"; "c"; "b"; "b"] = ["c"; "b"].
 Proof. split; vm_compute; reflexivity. Qed.
